@@ -81,6 +81,11 @@ def parse_inferred(idx):
         unit = {"min": 1, "T": 1, "h": 60, "H": 60, "D": 1440}.get(m.group(2))
         if unit is not None:
             return "(Fixed %s)" % zlit(n * unit), s
+    m = re.fullmatch(r"(\d*)W(-[A-Z]{3})?", s)
+    if m:
+        # a Week offset: the unchanged code raises TypeError on it (finding C08-F6, those cases are not sent to the
+        # model); with proposed-fixes/C08-2.diff it is a fixed length of n weeks
+        return "(Fixed %s)" % zlit(int(m.group(1) or 1) * 7 * 1440), s
     m = re.fullmatch(r"(\d*)(MS|ME|M)", s)
     if m:
         return "(Months %s)" % zlit(int(m.group(1) or 1)), s
@@ -134,6 +139,11 @@ def coq_class(obs):
     if obs[0] == "days":
         return "(ODays %s)" % coq_runs(obs[1])
     return {"ErrBilling": "OErrBilling", "ErrType": "OErrType"}.get(obs[1])
+
+
+def coq_offsets(stamps, z):
+    """UTC offsets of the given stamps (tz database, data for the model's wall-clock day count)"""
+    return "(offsets %s)" % coq_list(["(%s, %d)" % (ilit(t), tzdays.offset(t, z) + 1440) for t in sorted(set(stamps))])
 
 
 def label_check(stamps, bs):
@@ -697,20 +707,23 @@ def oracle_conservation(rs, rows, path):
     return []
 
 
-def midnight_dst(bs, z):
-    """does one of the local days of bs start at a midnight that does not exist or happens twice?"""
-    for b in bs:
-        if tzdays.local_minute_of_day(b, z) != 0:
-            return True
-        if tzdays.offset(b, z) != tzdays.offset(b + 60, z) and tzdays.local_minute_of_day(b + 60, z) == 0:
-            return True
+def midnight_dst(stamps, z):
+    """does the local day of one of the stamps start at a midnight that does not exist or happens twice?
+    (pandas normalises the first and the last stamp of a series when it builds day bins, which raises there)"""
+    for t in stamps:
+        for extra in (0, 1):          # pandas also steps one day past the last stamp (last + freq)
+            b = tzdays.day_start(tzdays.local_date(t, z) + dt.timedelta(days=extra), z)
+            if tzdays.local_minute_of_day(b, z) != 0:
+                return True
+            if tzdays.offset(b, z) != tzdays.offset(b + 60, z) and tzdays.local_minute_of_day(b + 60, z) == 0:
+                return True
     return False
 
 
-def raise_signature(path, obs, bs, z):
+def raise_signature(path, obs, edge_stamps, z):
     known = obs[1] == "ValueError" and ("nonexistent time" in obs[2] or "Cannot infer dst time" in obs[2])
     return {"path": path, "raised": obs[1],
-            "zone_class": "midnight-dst" if (known and midnight_dst(bs, z)) else "other"}
+            "zone_class": "midnight-dst" if (known and midnight_dst(edge_stamps, z)) else "other"}
 
 
 def cal_days(z, a, b):
@@ -849,9 +862,9 @@ CASE_TYPE = {
     "downsample": "list reading * list Z * int * list qv",
     "spread": "list reading * list Z * int * list (int * qv)",
     "dailyclass": "bool * inferred * list reading * list Z * class_obs",
-    "billclass": "bool * inferred * list reading * list Z * class_obs",
-    "cleanbill": "gran * list reading * list reading",
-    "cleanbill_est": "gran * list brow * option (list reading)",
+    "billclass": "bool * list (Z * Z) * bool * inferred * list reading * list Z * class_obs",
+    "cleanbill": "bool * list (Z * Z) * gran * list reading * list reading",
+    "cleanbill_est": "bool * list (Z * Z) * gran * list brow * option (list reading)",
     "gran": "inferred * list int * gran * option gran",
     "grid": "list reading * int * int",
 }
@@ -922,28 +935,29 @@ class Streams:
                 raise RuntimeError("harness crashed on a case:\n%s\ncase: %s" % (e[1], str(e[2])[:600]))
 
     def flush(self):
+        """all streams at once (each stream's shards are separate coqc processes)"""
+        from concurrent.futures import ThreadPoolExecutor
         run = self.run
-        for stream, lst in self.items.items():
-            keys = []
-            seen = set()
-            for t, _ in lst:
-                for k in KEY_RE.findall(t):
-                    if k not in seen and k in self.prelude:
-                        seen.add(k)
-                        keys.append(k)
-            pre = "\n".join("Definition %s := %s." % (k, self.prelude[k]) for k in keys)
-            shard = max(1, min(60, len(lst) // 14 + 1))
-            t_s = __import__("time").time()
-            bad = run.coq_cases(stream, IMPORTS, pre, [t for t, _ in lst], CHECK_FN[stream], shard=shard,
+        import time as _t
+
+        def one(stream):
+            lst = self.items[stream]
+            shard = max(1, min(60, len(lst) // 6 + 1))
+            t_s = _t.time()
+            bad = run.coq_cases(stream, IMPORTS, "", [t for t, _ in lst], CHECK_FN[stream], shard=shard,
                                 case_type=CASE_TYPE[stream])
-            run.log("stream %s: %d cases, %d prelude definitions, %.1fs" % (stream, len(lst), len(keys),
-                                                                           __import__("time").time() - t_s))
+            run.log("stream %s: %d cases, %.1fs" % (stream, len(lst), _t.time() - t_s))
+            return stream, bad
+        with ThreadPoolExecutor(max_workers=4) as ex:
+            results = list(ex.map(one, list(self.items)))
+        for stream, bad in results:
+            lst = self.items[stream]
             if bad is None:
                 run.proof_ok = False
                 continue
             for i in bad[:6]:
                 term, info = lst[i]
-                model = run.coq_eval(IMPORTS, pre, info["model_term"]) if info.get("model_term") else None
+                model = run.coq_eval(IMPORTS, "", info["model_term"]) if info.get("model_term") else None
                 run.corr_failures.append({"stream": stream, "case": info["case"], "impl": info.get("impl"),
                                           "model": model})
             for i in bad[6:]:
@@ -996,7 +1010,7 @@ def process_subdaily(run, st, cs):
                 {"case": cs, "impl": short(obs), "model_term": "as_freq_cum %s %s" % (gA, kA)})
         report(run, oracle_asfreq(rsA, bsA, {m: (v, c) for m, v, c in obs[1]}, "as_freq"), cs, short(obs), gen)
     else:
-        report(run, [(raise_signature("as_freq", obs, bsA, z), "as_freq raised %s: %s" % (obs[1], obs[2]))], cs, list(obs), gen)
+        report(run, [(raise_signature("as_freq", obs, [rsA[0][0], rsA[-1][0]], z), "as_freq raised %s: %s" % (obs[1], obs[2]))], cs, list(obs), gen)
     # ---- downsample_and_clean_daily_data on the NaN-marked series: the strict statement
     obs = impl_downsample(rsB, z)
     run.count(("downsample", key))
@@ -1012,7 +1026,7 @@ def process_subdaily(run, st, cs):
         vals = [got.get(bsB[j]) for j in range(len(bsB) - 1)]
         report(run, oracle_subdaily_days(cs, bsB, vals, "downsample_and_clean_daily_data"), cs, short(obs), gen)
     else:
-        report(run, [(raise_signature("downsample", obs, bsB, z), "downsample_and_clean_daily_data raised %s: %s" % (
+        report(run, [(raise_signature("downsample", obs, [rsB[0][0], rsB[-1][0]], z), "downsample_and_clean_daily_data raised %s: %s" % (
             obs[1], obs[2]))], cs, list(obs), gen)
     # ---- the data class end to end
     how = run.rng.choice(["baseline-df", "baseline-df", "reporting-df", "baseline-series", "reporting-series"])
@@ -1043,7 +1057,7 @@ def process_subdaily(run, st, cs):
         run.sample({"stream": "dailyclass", "zone": z, "step": cs["step"], "how": how, "gaps": cs["gap_classes"],
                     "days": len(vals), "first_days": [None if v is None else float(v) for v in vals[:4]]})
     else:
-        report(run, [(raise_signature("daily-data-class", obs, bs, z), "%s raised %s: %s" % (how, obs[1], obs[2]))],
+        report(run, [(raise_signature("daily-data-class", obs, [rows[0][0], rows[-1][0]] + [t for t, _ in eff[:1]] + [t for t, _ in eff[-1:]], z), "%s raised %s: %s" % (how, obs[1], obs[2]))],
                case, list(obs), gen)
     # ---- lemma minute_grid_eq executed on one bucket of a short window (the 1-minute grid is slow in Coq)
     if run.rng.random() < 0.08:
@@ -1098,7 +1112,7 @@ def process_daily(run, st, cs):
             report(run, [({"path": "daily-data-class", "raised": "ValueError-billing", "deviation": "daily series rejected"},
                           "daily series rejected as billing data: %s" % obs[2])], case, list(obs), "c08.gen_daily")
     else:
-        report(run, [(raise_signature("daily-data-class", obs, bs, z), "%s raised %s: %s" % (how, obs[1], obs[2]))],
+        report(run, [(raise_signature("daily-data-class", obs, [rows[0][0], rows[-1][0]] + [t for t, _ in eff[:1]] + [t for t, _ in eff[-1:]], z), "%s raised %s: %s" % (how, obs[1], obs[2]))],
                case, list(obs), "c08.gen_daily")
 
 
@@ -1117,12 +1131,15 @@ def process_billing(run, st, cs):
                  else "37-69" if L < 70 else "70" if L == 70 else "71" if L == 71 else ">71")
     # ---- clean_billing_data, both kinds, without the estimated column
     rk = st.define(coq_readings(rs))
+    cal = coq_bool(FLAGS["cal"])
+    offs = coq_offsets([t for t, _ in rs], z)
     for kind in ("billing_monthly", "billing_bimonthly"):
         obs = impl_clean_billing(rs, z, kind)
         run.count(("cleanbill", kind, key))
         if obs[0] == "rows":
-            st.add("cleanbill", "(%s, %s, %s)" % (GRAN[kind], rk, coq_readings(obs[1])),
-                   {"case": dict(cs, call=kind), "impl": short(obs), "model_term": "clean_billing %s %s" % (GRAN[kind], rk)})
+            st.add("cleanbill", "(%s, %s, %s, %s, %s)" % (cal, offs, GRAN[kind], rk, coq_readings(obs[1])),
+                   {"case": dict(cs, call=kind), "impl": short(obs),
+                    "model_term": "clean_billing %s %s %s %s" % (cal, offs, GRAN[kind], rk)})
             if obs[1]:
                 report(run, oracle_offcycle(z, rs, obs[1], kind, "clean_billing_data"), dict(cs, call=kind), short(obs),
                        "c08.gen_billing")
@@ -1157,7 +1174,7 @@ def process_billing(run, st, cs):
                                               "as_freq: period %d billed %s, its days sum to %s" % (i, v and float(v), float(tot)))],
                                        cs, short(o2), "c08.gen_billing")
                     else:
-                        report(run, [(raise_signature("as_freq(billing)", o2, bs, z), "as_freq raised %s: %s" % (o2[1], o2[2]))],
+                        report(run, [(raise_signature("as_freq(billing)", o2, [obs[1][0][0], obs[1][-1][0]], z), "as_freq raised %s: %s" % (o2[1], o2[2]))],
                                cs, list(o2), "c08.gen_billing")
         else:
             report(run, [({"path": "clean_billing_data", "raised": obs[1]}, "clean_billing_data raised %s: %s" % (obs[1], obs[2]))],
@@ -1178,9 +1195,9 @@ def process_billing(run, st, cs):
             report(run, [({"path": "clean_billing_data+estimated", "raised": obs[1]}, "raised %s: %s" % (obs[1], obs[2]))],
                    cs, list(obs), "c08.gen_billing")
         if exp:
-            st.add("cleanbill_est", "(%s, %s, %s)" % (GRAN[kind], rows_t, exp),
+            st.add("cleanbill_est", "(%s, %s, %s, %s, %s)" % (cal, offs, GRAN[kind], rows_t, exp),
                    {"case": dict(cs, call="estimated"), "impl": short(obs),
-                    "model_term": "clean_billing_est %s %s" % (GRAN[kind], rows_t)})
+                    "model_term": "clean_billing_est %s %s %s %s" % (cal, offs, GRAN[kind], rows_t)})
         if obs[0] == "rows":
             # folding estimated reads never invents usage
             tin = sum((v for v in [x[1] for x in per] if v is not None), F(0))
@@ -1200,12 +1217,16 @@ def process_billing(run, st, cs):
         run.dist("inferred_freq", inf_s if inf_s is None or not inf_s[0].isdigit() else "nD")
         if bs is None:
             bs = tzdays.boundaries(rows[0][0], rows[-1][0], z, extra_after=3)
-        if obs[0] == "days" or obs[1] == "ErrType":
+        weekly_error = obs[0] == "err" and obs[1] == "ErrType" and "Week" in obs[2]
+        if (obs[0] == "days" or obs[1] == "ErrType") and not weekly_error:
             rk2 = st.define(coq_readings(rows))
             bk2 = st.define(coq_zs(bs))
-            st.add("billclass", "(%s, %s, %s, %s, %s)" % (coq_bool(cs["elec"]), inf, rk2, bk2, coq_class(obs)),
+            last = rows[-1][0]
+            fb = max(b for b in bs if b <= last)
+            offs2 = coq_offsets([t for t, _ in rows] + [fb + (last - fb) % 60 + 1440], z)
+            st.add("billclass", "(%s, %s, %s, %s, %s, %s, %s)" % (cal, offs2, coq_bool(cs["elec"]), inf, rk2, bk2, coq_class(obs)),
                    {"case": cs, "impl": short(obs),
-                    "model_term": "billing_class %s %s %s %s" % (coq_bool(cs["elec"]), inf, rk2, bk2)})
+                    "model_term": "billing_class %s %s %s %s %s %s" % (cal, offs2, coq_bool(cs["elec"]), inf, rk2, bk2)})
     if obs[0] == "days":
         report(run, oracle_billing_days(cs, bs, obs[1], "billing-data-class", last_stamp=rows[-1][0]), cs, short(obs),
                "c08.gen_billing")
@@ -1220,7 +1241,7 @@ def process_billing(run, st, cs):
             sig = {"path": "billing-data-class", "raised": "TypeError",
                    "cause": "regular-cycle-inferred-as-weekly" if weekly else "other"}
         else:
-            sig = raise_signature("billing-data-class", obs, tzdays.boundaries(cs["stamps"][0], cs["stamps"][-1], z), z)
+            sig = raise_signature("billing-data-class", obs, [cs["stamps"][0], cs["stamps"][-1] - 1440, cs["stamps"][-1], cs["stamps"][-1] + 1440], z)
         report(run, [(sig, "BillingBaselineData (%s) raised %s: %s" % (cs["format"], obs[1], obs[2]))], cs, list(obs), "c08.gen_billing")
 
 
@@ -1278,8 +1299,15 @@ def replay_refuted(run):
     run.count(("refuted-witness", "sparse_day"))
     if obs[0] == "days":
         bs = tzdays.boundaries(rs[0][0], rs[-1][0], "UTC")
-        report(run, oracle_subdaily_days(dict(cs, as_class=True), bs, obs[1], "daily-data-class"),
-               dict(cs, how="baseline-df", witness="C08_sparse_day_class_refuted"), short(obs), "c08.replay_refuted")
+        fails = oracle_subdaily_days(dict(cs, as_class=True), bs, obs[1], "daily-data-class",
+                                     mech=mechanism_dropna(rows, "UTC", False))
+        report(run, fails, dict(cs, how="baseline-df", witness="C08_sparse_day_class_refuted"), short(obs), "c08.replay_refuted")
+        # the witness goes through the correspondence too: model (= the theorem's wit_vals) against the implementation
+        eff = [(t, v) for t, v in rows if v is not None]
+        inf, _ = parse_inferred(tz_index([t for t, _ in eff], "UTC"))
+        run.add("dailyclass", "(false, %s, %s, %s, %s)" % (inf, coq_grid(cs), coq_zs(bs), coq_class(obs)),
+                {"case": dict(cs, how="baseline-df", witness="C08_sparse_day_class_refuted"), "impl": short(obs),
+                 "model_term": "daily_class false %s %s %s" % (inf, coq_grid(cs), coq_zs(bs))})
         run.extra("sparse_day_class", {"day_1_value": None if obs[1][1] is None else float(obs[1][1]), "expected": None})
 
 
@@ -1310,7 +1338,9 @@ def main():
     run.cov["trusted_base"] += ["harness/c08.py, harness/tzdays.py (generators, adapters, per-local-day canonicalisation, oracle)",
                                 "pandas semantics re-specified in Model/Resample.v; tz database"]
     run.check_proofs("Properties/C08.v", ["Proofs/ResampleProofs.v"])
+    run.log("theorems re-checked: %d/%d" % (run.cov["discharged"], run.cov["obligations"]))
     run.ensure_models(["Model/ResampleRun.v", "Model/CasesLib.v"])
+    run.log("models built")
     st = Streams(run)
     jobs = []
     scale = float(os.environ.get("VERIF_SCALE", "1"))      # development aid only
@@ -1337,6 +1367,10 @@ def main():
     jobs = [(i, run.seed, kind, payload) for i, (kind, payload) in enumerate(jobs)]
     import multiprocessing as mp
     warm_imports()
+    flags = probe()
+    FLAGS["cal"] = flags["cal"]           # inherited by the forked workers
+    run.cov["model_variant"] = flags
+    run.log("probe: %s" % {"cal": flags["cal"]})
     nproc = int(os.environ.get("VERIF_PROCS", "14"))
     if len(jobs) == 1 or nproc <= 1:
         results = map(work, jobs)
@@ -1377,6 +1411,19 @@ def job_cost(job):
     if payload["kind"] == "billing":
         return 400
     return 50
+
+
+FLAGS = {"cal": False}
+
+
+def probe():
+    """does clean_billing_data count whole elapsed days (code as it is) or days on the local wall clock (repaired,
+    proposed-fixes/C08-1.diff)?  US/Pacific 2024-03-01 -> 2024-03-26 is 25 calendar days, 24 d 23 h of elapsed time."""
+    z = "US/Pacific"
+    st = [tzdays.day_start(dt.date(*d), z) for d in [(2024, 2, 1), (2024, 3, 1), (2024, 3, 26), (2024, 4, 25)]]
+    obs = impl_clean_billing([(st[0], F(100)), (st[1], F(250)), (st[2], F(300)), (st[3], None)], z, "billing_monthly")
+    kept = obs[0] == "rows" and dict(obs[1]).get(st[1]) == F(250)
+    return {"cal": bool(kept), "probe": str(obs)[:200]}
 
 
 def work_indexed(job):
